@@ -34,6 +34,7 @@ type Frame struct {
 	depth   int
 	monitors []monitor
 	closures map[types.Object]*ast.FuncLit
+	split    bool // path splitting instead of merging (directive //kvc:split)
 }
 
 type monitor struct {
@@ -569,7 +570,11 @@ func (f *Frame) load(st *State, l Loc, pos token.Pos) Term {
 		return vc.heapGet(st, l.key, f.sortOf(l.typ))
 	case locField:
 		srt := f.sortOf(l.typ)
-		v := Select(vc.heapGet(st, l.key, ArraySort(SInt, srt)), l.ref)
+		h := vc.heapGet(st, l.key, ArraySort(SInt, srt))
+		v := Select(h, l.ref)
+		if vc.quantDepth > 0 && !f.inOld {
+			f.heapWellFormed(st, h, l.typ)
+		}
 		return f.typed(st, v, l.typ)
 	case locSliceElem:
 		s := f.load(st, *l.parent, pos)
@@ -587,6 +592,74 @@ func (f *Frame) load(st *State, l Loc, pos token.Pos) Term {
 	panic("load")
 }
 
+// heapWellFormed: Go's type safety as a fact about one version h of a reference-valued field: every
+// allocated object's field holds nil or an allocated object of the field's type (for slices: each
+// element). Emitted once per heap version, only when a specification reads the field under a
+// quantifier (where per-read facts cannot be attached).
+func (f *Frame) heapWellFormed(st *State, h Term, ft types.Type) {
+	vc := f.vc
+	if strings.Contains(h.S, "?") {
+		return
+	}
+	alloc := vc.alloc(st)
+	if strings.Contains(alloc.S, "?") {
+		return
+	}
+	key := "wf|" + h.S + "|" + alloc.S + "|" + st.pc.S
+	if vc.asserted[key] {
+		return
+	}
+	r := Term{"r!", SInt}
+	guard := And(app(SBool, "<", IntLit(0), r), app(SBool, "<", r, alloc))
+	v := Select(h, r)
+	var body Term
+	var pat Term
+	wf := func(e Term, t types.Type) Term {
+		switch t.Underlying().(type) {
+		case *types.Pointer, *types.Map:
+			return And(app(SBool, "<=", IntLit(0), e), app(SBool, "<", e, alloc), Or(Eq(e, IntLit(0)), vc.hasType(e, types.Unalias(t))))
+		case *types.Interface:
+			return And(app(SBool, "<=", IntLit(0), IRef(e)), app(SBool, "<", IRef(e), alloc), Or(Eq(IRef(e), IntLit(0)), Eq(app(SInt, "typeof", IRef(e)), ITag(e))))
+		}
+		return True
+	}
+	ft = f.subst(ft)
+	switch u := ft.Underlying().(type) {
+	case *types.Pointer, *types.Map, *types.Interface:
+		body, pat = wf(v, ft), v
+	case *types.Slice:
+		i := Term{"i!", SInt}
+		e := Select(SArr(v), i)
+		inner := wf(e, u.Elem())
+		if inner.S == "true" {
+			return
+		}
+		if vc.asserted == nil {
+			vc.asserted = map[string]bool{}
+		}
+		vc.asserted[key] = true
+		saved := vc.quantDepth
+		vc.quantDepth = 0
+		if !strings.Contains(st.pc.S, "?") {
+			vc.assume(st, Forall([]Term{r, i}, Imp(guard, inner), e))
+		}
+		vc.quantDepth = saved
+		return
+	default:
+		return
+	}
+	if vc.asserted == nil {
+		vc.asserted = map[string]bool{}
+	}
+	vc.asserted[key] = true
+	saved := vc.quantDepth
+	vc.quantDepth = 0
+	if !strings.Contains(st.pc.S, "?") {
+		vc.assume(st, Forall([]Term{r}, Imp(guard, body), pat))
+	}
+	vc.quantDepth = saved
+}
+
 func isEmptyStruct(t types.Type) bool {
 	s, ok := t.Underlying().(*types.Struct)
 	return ok && s.NumFields() == 0
@@ -598,6 +671,9 @@ func (f *Frame) typed(st *State, v Term, t types.Type) Term {
 		return v // facts about terms with bound variables / old state are not emitted
 	}
 	for _, fact := range f.typeFacts(st, v, t) {
+		if f.spec && strings.HasPrefix(fact.S, "(forall") {
+			continue // specification reads get the cheap facts only (well-formed heap: references are nil or allocated)
+		}
 		f.vc.assume(st, fact)
 	}
 	return v
@@ -631,19 +707,20 @@ func (f *Frame) typeFacts(st *State, v Term, t types.Type) []Term {
 				e := Select(SArr(v), i)
 				switch et.Underlying().(type) {
 				case *types.Pointer, *types.Map:
-					facts = append(facts, Forall([]Term{i}, f.vc.isAllocOrNil(st, e), e))
+					facts = append(facts, Forall([]Term{i}, And(f.vc.isAllocOrNil(st, e), Or(Eq(e, IntLit(0)), f.vc.hasType(e, types.Unalias(f.subst(et))))), e))
 				case *types.Interface:
-					facts = append(facts, Forall([]Term{i}, f.vc.isAllocOrNil(st, IRef(e)), e))
+					facts = append(facts, Forall([]Term{i}, And(f.vc.isAllocOrNil(st, IRef(e)), Or(Eq(IRef(e), IntLit(0)), Eq(app(SInt, "typeof", IRef(e)), ITag(e)))), e))
 				}
 			}
 		}
 		return facts
 	case v.Sort == SIface:
-		return []Term{f.vc.isAllocOrNil(st, IRef(v))}
+		// an interface value holds a reference whose dynamic type is its tag
+		return []Term{f.vc.isAllocOrNil(st, IRef(v)), Or(Eq(IRef(v), IntLit(0)), Eq(app(SInt, "typeof", IRef(v)), ITag(v)))}
 	case v.Sort == SInt:
 		switch u := f.subst(t).Underlying().(type) {
 		case *types.Pointer, *types.Map:
-			return []Term{f.vc.isAllocOrNil(st, v)}
+			return []Term{f.vc.isAllocOrNil(st, v), Or(Eq(v, IntLit(0)), f.vc.hasType(v, types.Unalias(f.subst(t))))}
 		case *types.Basic:
 			if u.Info()&types.IsUnsigned != 0 {
 				return []Term{app(SBool, ">=", v, IntLit(0))}
@@ -705,7 +782,7 @@ func (f *Frame) allocStruct(st *State, cl *ast.CompositeLit) Term {
 			set[i] = true
 		}
 	}
-	r := vc.newRef(st, "new_"+structName(t))
+	r := vc.newRefT(st, "new_"+structName(t), types.NewPointer(t))
 	f.initStructFields(st, r, structName(t), stt, vals, set)
 	return r
 }
@@ -769,7 +846,7 @@ func (f *Frame) compositeLit(st *State, cl *ast.CompositeLit) Term {
 		return vc.define("lit", MkSlice(arr, IntLit(int64(n))))
 	case *types.Map:
 		ks, vs := vc.mapSorts(u)
-		m := vc.newMap(st, ks, vs)
+		m := vc.newMapT(st, ks, vs, t)
 		for _, el := range cl.Elts {
 			kv := el.(*ast.KeyValueExpr)
 			k := f.convert(f.expr(st, kv.Key), f.typeOf(kv.Key), u.Key())
